@@ -18,12 +18,14 @@ pub struct Violation {
     pub detail: String,
     /// key of a known-finding matcher this violation satisfies, if any
     pub finding: Option<String>,
+    /// false when the monitor keeps no model that a known defect could desynchronise
+    pub truncate: bool,
 }
 
 pub type MResult = Result<(), Violation>;
 
 pub fn viol(monitor: &str, detail: String) -> Violation {
-    Violation { monitor: monitor.to_string(), detail, finding: None }
+    Violation { monitor: monitor.to_string(), detail, finding: None, truncate: true }
 }
 
 /// Full observable state (everything except the clock).
@@ -119,7 +121,7 @@ pub struct SimCore {
 }
 
 pub trait Monitor {
-    fn pre(&mut self, _c: &mut SimCore, _step: &Step) -> MResult {
+    fn pre(&mut self, _c: &mut SimCore, _step: &Step, _pre: &Obs) -> MResult {
         Ok(())
     }
     fn post(&mut self, c: &mut SimCore, step: &Step, pre: &Obs, out: &TxOut, post: &Obs) -> MResult;
@@ -271,7 +273,7 @@ impl Sim {
 
         let mut result: MResult = Ok(());
         for m in mons.iter_mut() {
-            if let Err(v) = m.pre(c, step) {
+            if let Err(v) = m.pre(c, step, &pre) {
                 result = Err(v);
                 break;
             }
@@ -331,7 +333,9 @@ impl Sim {
                     if self.open_findings.contains(k) {
                         *self.core.stats.known_hits.entry(k.clone()).or_insert(0) += 1;
                         // the models may be out of sync with a state that a known defect produced
-                        self.core.truncate = true;
+                        if v.truncate {
+                            self.core.truncate = true;
+                        }
                         return Ok(());
                     }
                 }
